@@ -649,11 +649,11 @@ def run(chk):
 META = {
     "category": "other",
     "engine": "HERM + FLOW + TNA",
-    "technique": "typed dataflow of linear-operator callables (Hermitian x scalar factor) to every Krylov call, symbolic (sympy) comparison of solver exponents along prologue paths, structural checks of controllers and RK stage usage",
+    "technique": "abstract interpretation of the evolution schemes: tangent-space schemes run with both local solvers and real / imaginary steps (effective operators as tagged linear maps), propagate-and-compress evolvers in a free algebra of time-ordered operator words with exact complex-rational coefficients against the tableaux proved by C19, adaptive controllers with scripted error estimates, transfer matrices on abstract tensors; typed dataflow for the tree Krylov operands",
     "text": "Clause-only: decides the solver-independence and operator-typing conditions without which the schemes cannot converge to "
             "exp(-iHt) (Hermitian precondition of the Lanczos exponential, equal exponents in both local solvers, correct stage times and "
             "weights, rejected steps discarded, compressed results). Convergence orders and conservation are numerical and not decided."
             ' Adaptive error estimates divide norms of one kind; temporarily modified configurations are saved as copies and restored.',
     "note": "Operator callables are typed from their constructors (hop_expr*, integrand_func_factory); an untypable operand stops the analysis.",
-    "design_ref": "DESIGN.md 3.5, 3.6, 4 (C09)",
+    "design_ref": "DESIGN.md 3.5, 3.6, 4 (C09); as built: 9.1, 9.3, 9.8",
 }
